@@ -103,8 +103,11 @@ Section Exact.
     Hypothesis Hofs : c_one_fs c = false.
     Hypothesis Hdepth : N.of_nat (length (keys t)) < c_depth c.
     Hypothesis Hsd : forall p, sel_dir p = true.
+    (* the hidden-name test depends on the level of the visit (it is skipped at level 0), so it must
+       not fire at all: --hidden, or no hidden name in the tree *)
+    Hypothesis Hhid : c_hidden c = true \/ forall p, In p (keys t) -> name_hidden p = false.
 
-    Definition dead (q : path) : Prop := lookup t q = None \/ (c_hidden c = false /\ name_hidden q = true).
+    Definition dead (q : path) : Prop := lookup t q = None.
     Definition handled (pending : list task) (vis : list path) (q : path) : Prop :=
       In q vis \/ dead q \/ exists tk, In tk pending /\ t_path tk = q.
 
@@ -115,26 +118,27 @@ Section Exact.
       inv_succ : forall tk tk', In (t_path tk) vis -> edge false tk tk' -> handled pending vis (t_path tk');
       inv_out : forall tk x, In (t_path tk) vis -> emits false tk x -> In x out }.
 
+    Lemma never_hidden p nd : lookup t p = Some nd -> c_hidden c = true \/ name_hidden p = false.
+    Proof. intros H. destruct Hhid as [Hh | Hh]; auto. right. eapply Hh, lookup_in_keys; eauto. Qed.
+
     Lemma pre_none_dead tk : pre_b tk = None -> dead (t_path tk).
     Proof.
-      unfold WalkProofs.pre_b, dead. destruct (lookup t (t_path tk)) as [nd|]; [|now left].
+      unfold WalkProofs.pre_b, dead. destruct (lookup t (t_path tk)) as [nd|] eqn:El; [|reflexivity].
       assert (match t_kind tk with TPath => sel_dir (t_path tk) | TEntry => true end = true) as ->.
       { destruct (t_kind tk); auto. }
-      cbn [andb]. destruct (c_hidden c); cbn; [discriminate|].
-      destruct (name_hidden (t_path tk)); cbn; [now right|discriminate].
+      cbn [andb]. destruct (never_hidden _ _ El) as [-> | ->]; cbn; [discriminate|].
+      rewrite andb_false_r. discriminate.
     Qed.
 
     Lemma enters_not_dead pr tk nd : enters pr tk nd -> ~ dead (t_path tk).
-    Proof.
-      intros (H1 & _ & H3 & _) [Hd | [Hd1 Hd2]]; [congruence|].
-      destruct H3; congruence.
-    Qed.
+    Proof. intros (H1 & _) Hd. unfold dead in Hd. congruence. Qed.
 
     (* under the hypotheses an edge / a report depends only on the path of the visit (and level < depth) *)
     Lemma enters_transfer tk tka nd :
       t_path tk = t_path tka -> enters false tk nd -> enters true tka nd.
     Proof.
       intros Hp (H1 & _ & H3 & _). rewrite Hp in *. repeat split; auto.
+      destruct (never_hidden _ _ H1) as [Hh | Hh]; auto.
     Qed.
 
     Lemma edge_transfer tk tka tk' :
